@@ -134,7 +134,9 @@ def make_case(ctx, fmt, variant, rng):
             av2["data_format"] = b"NOAA Level 1b v%d    " % (variant["version"] % 10)
             av2["data_set_name"] = name.encode()
         else:
-            av2["data_set_name"] = name.encode() + b"  "
+            # the archive header's own name: ASCII, EBCDIC or unset (42 NULs and two blanks)
+            av2["data_set_name"] = {"ascii": name.encode() + b"  ", "unset": 42 * b"\0" + b"  ",
+                                    "cp500": (name + "  ").encode("cp500")}[variant.get("aname", "ascii")]
         archive = arch_spec.build(av2)
         hdr["archive"] = av2
     data = archive + bytes(block) + b"".join(rec.build(v) for v in recs_vals) + bytes(rng.randrange(256) for _ in range(variant["tail"]))
@@ -271,6 +273,9 @@ def variants(ctx, fmt):
         lst.append(dict(base, n=4, count=4, epoch=1, start=starts[1]))
         lst.append(dict(base, n=4, count=3, epoch=2, start=starts[2], archive=True))
         lst.append(dict(base, n=2, count=2, epoch=1, start=starts[1], archive=True, tail=3219))
+        for e in (1, 2, 3):
+            lst.append(dict(base, n=3, count=3, epoch=e, start=starts[e], archive=True, aname="unset"))
+        lst.append(dict(base, n=3, count=3, archive=True, aname="cp500"))
         # header-epoch boundaries: last day of epoch 1, first/last day of epoch 2, first day of epoch 3
         lst.append(dict(base, n=2, count=2, epoch=1, start=(1992, 251, 1000)))
         lst.append(dict(base, n=2, count=2, epoch=2, start=(1992, 252, 1000)))
